@@ -5,7 +5,7 @@ NAME=$1; PROP=$2; TIER=${3:-quick}
 WT=/tmp/wt/st_${NAME}_$PROP
 git -C /repo worktree remove --force $WT >/dev/null 2>&1
 git -C /repo worktree add --detach $WT HEAD >/dev/null 2>&1 || exit 2
-if ! git -C $WT apply /verif/seeded/$NAME/patch.diff; then echo "$NAME $PROP APPLY-FAILED"; git -C /repo worktree remove --force $WT; exit 2; fi
+if ! git -C $WT apply /verif/seeded/$NAME/patch.diff 2>/dev/null && ! git -C $WT apply --3way /verif/seeded/$NAME/patch.diff 2>/dev/null; then echo "$NAME $PROP APPLY-FAILED"; git -C /repo worktree remove --force $WT; exit 2; fi
 OUT=$(cd /verif && VERIF_REPO=$WT VERIF_EVID_SUFFIX=.seedtest ./check $PROP --tier $TIER 2>&1); RC=$?
 git -C /repo worktree remove --force $WT
 if [ $RC = 1 ]; then echo "$NAME $PROP DETECTED: $(echo "$OUT" | grep -m1 'counterexample in' | cut -c1-300)";
